@@ -260,6 +260,11 @@ impl Transform {
         }
 
         while let Some(template) = iter.next() {
+            if iter.peek() == Some(&ellipsis) && !Self::expands(template, pattern, ellipsis) {
+                return Err(InvalidSyntax(
+                    "ellipses must follow a variable bound under an ellipsis".into(),
+                ));
+            }
             match template {
                 Cell::Pair(_, _) => Self::check_template_syntax(template, pattern, ellipsis)?,
                 Cell::Symbol(_) => {
@@ -280,6 +285,24 @@ impl Transform {
             }
         }
         Ok(())
+    }
+
+    /// Can expanding `template` run out of bindings: is it, or does it contain
+    /// outside of a nested ellipsis, a variable bound under an ellipsis?
+    fn expands(template: &Cell, pattern: &Pattern, ellipsis: &Cell) -> bool {
+        match template {
+            Cell::Symbol(_) => pattern.is_expanded_variable(template),
+            Cell::Pair(_, _) => {
+                let mut iter = template.iter().peekable();
+                while let Some(it) = iter.next() {
+                    if iter.peek() != Some(&ellipsis) && Self::expands(it, pattern, ellipsis) {
+                        return true;
+                    }
+                }
+                false
+            }
+            _ => false,
+        }
     }
 
     /// Transform
